@@ -15,7 +15,7 @@ V2 = [200, 201, 202, 203, 210, 211, 220]
 ACCTTYPES = ["CHECKING", "SAVINGS", "MONEYMRKT", "CREDITLINE", "CD"]
 from sx.models.dt import FixedTz
 D0 = datetime.datetime(2020, 1, 2, 3, 4, 5, 678000, tzinfo=UTC)
-D1 = datetime.datetime(2019, 12, 31, 23, 59, 59, 999499, tzinfo=FixedTz(-570, "X"))     # non-UTC zone, rounds down
+D1 = datetime.datetime(2019, 12, 31, 23, 59, 59, 999499, tzinfo=FixedTz(-30, "X"))      # zone between -1h and 0, rounds down
 D2 = datetime.datetime(1999, 12, 31, 23, 59, 59, 999500, tzinfo=FixedTz(840, None))      # rounds up across the year
 ONE_US = datetime.timedelta(microseconds=1)
 
@@ -46,16 +46,19 @@ def mk_client(ctx, major, sym_ident, fixed=None, sym_org=True):
         has_cuid = ctx.bool("has_clientuid")
         custom = ctx.bool("custom_app")
     kw = dict(version=version, prettyprint=pretty, close_elements=close, bankid="B1", brokerid="BR")
+    has_fid = False
     if has_fi:
         kw["org"] = ctx.str("org", 1, NOWS) if (sym_ident and sym_org) else "O&g"
-        kw["fid"] = "77"
+        has_fid = ctx.bool("has_fid") if fixed is None or sym_ident else True
+        if has_fid:
+            kw["fid"] = "77"
     if has_cuid:
         kw["clientuid"] = "CUID-1"
     if custom:
         kw["appid"], kw["appver"], kw["language"] = "AB", "1", "FRA"
     userid = ctx.str("userid", 1, NOWS) if (fixed is None or sym_ident) else "user"
     client = OFXClient("http://x", userid=userid, **kw)
-    return client, dict(version=version, has_fi=has_fi, has_cuid=has_cuid, custom=custom, userid=userid, org=kw.get("org"), close=close)
+    return client, dict(version=version, has_fi=has_fi, has_fid=has_fid, has_cuid=has_cuid, custom=custom, userid=userid, org=kw.get("org"), close=close)
 
 
 def check_envelope(ctx, hdr, ofx, cfg, password, userid):
@@ -68,7 +71,7 @@ def check_envelope(ctx, hdr, ofx, cfg, password, userid):
               ctx.all([so.language == ("FRA" if cfg["custom"] else "ENG"), so.appid == ("AB" if cfg["custom"] else "QWIN"),
                        so.appver == ("1" if cfg["custom"] else "2700")]))
     if cfg["has_fi"]:
-        ctx.check("FI is present with the configured ORG and FID", so.fi is not None and ctx.all([so.fi.org == cfg["org"], so.fi.fid == "77"]))
+        ctx.check("FI is present with the configured ORG and FID", so.fi is not None and ctx.all([so.fi.org == cfg["org"], (so.fi.fid == "77") if cfg["has_fid"] else so.fi.fid is None]))
     else:
         ctx.check("FI is absent when no ORG is configured", so.fi is None)
     want_cuid = cfg["has_cuid"] and ver >= 103
